@@ -1205,24 +1205,28 @@ func (vc *VC) lockOp(st *State, callee *types.Func, recvExpr ast.Expr, call *ast
 	h := vc.heapGet(st, hname, "(Array Int Int)", nil)
 	cur := sel2(h.S, owner.S)
 	set := func(v string) { st.heap[hname] = Term{S: store(h.S, owner.S, v), Sort: "(Array Int Int)"} }
-	var mon *GlobalFact
+	var mons []*GlobalFact
 	if on, ok := vc.ts.apply(pt.Elem()).(*types.Named); ok {
-		mon = vc.p.con.Monitors[on.Obj().Name()+"."+se.Sel.Name]
+		mons = vc.p.con.Monitors[on.Obj().Name()+"."+se.Sel.Name]
 	}
-	monInv := func() string {
+	monInv := func(mon *GlobalFact) string {
 		env := vc.specEnv(st, vc.entry)
 		env.vars["self"] = owner
 		return env.evalBool(mon.Expr)
 	}
-	if mon != nil && vc.dry == 0 && (callee.Name() == "Unlock" || callee.Name() == "RUnlock") {
-		// monitor invariant: re-established before the lock is released
-		vc.oblige(st, "monitor-invariant", "invariant of "+mon.Name+" holds when the lock is released: "+mon.Text, vc.pos(call), monInv(), mon.Props)
+	if vc.dry == 0 && (callee.Name() == "Unlock" || callee.Name() == "RUnlock") {
+		// monitor invariants: re-established before the lock is released
+		for _, mon := range mons {
+			vc.oblige(st, "monitor-invariant", "invariant of "+mon.Name+" holds when the lock is released: "+mon.Text, vc.pos(call), monInv(mon), mon.Props)
+		}
 	}
 	defer func() {
-		if mon != nil && vc.dry == 0 && (callee.Name() == "Lock" || callee.Name() == "RLock") {
+		if vc.dry == 0 && (callee.Name() == "Lock" || callee.Name() == "RLock") {
 			// ... and may therefore be assumed when it is acquired (all writers of guarded state hold the lock)
-			st.assume(monInv())
-			vc.note("monitor invariant of " + mon.Name + " assumed at acquire (proved at every release and by the constructor; guarded state is only written under the lock)")
+			for _, mon := range mons {
+				st.assume(monInv(mon))
+				vc.note("monitor invariant of " + mon.Name + " assumed at acquire (proved at every release and by the constructor; guarded state is only written under the lock)")
+			}
 		}
 	}()
 	switch callee.Name() {
